@@ -12,131 +12,259 @@ LEAN_MODULE = "Proofs.C17"
 _T = "SE.Proofs.C17."
 THEOREMS = [_T + n for n in [
     "C17_crop_exact", "C17_crop_rejects", "C17_extend_lattice", "C17_extend_keeps", "C17_extend_fill",
-    "C17_width", "C17_placement", "C17_regular_axis_continues", "C17_step_known", "C17_arange_by_count"]]
+    "C17_width", "C17_placement", "C17_regular_axis_continues", "C17_step_known", "C17_arange_by_count",
+    "C17_crop_bounds", "C17_extend_plan", "C17_extend_exact", "C17_width_keeps", "C17_crop_window",
+    "C17_step_options"]]
 LEVEL_TEXT = ("Lean theorems over the rational model of crop_dim (exactly the samples in the requested interval when no "
-              "coordinate lies within eps of an open end), extend_dim (result = the axis lattice inside the requested "
-              "interval, original samples kept, new ones filled) and adjust_dim_width / crop_dim_width / extend_dim_width "
-              "(exactly `width` samples for every width >= 1, placement at start / centre / end, a regular axis continues "
-              "on its lattice) hold for all inputs; the model is tied to the code by exact differential runs on dyadic axes "
-              "(every width 1..2n+3, three positions, all closedness flags, step from attribute or estimated) and the "
-              "defaults (eps, tolerances, closedness) are re-extracted from the signatures on every run.")
+              "coordinate lies within eps of an open end), extend_dim (the whole result = filled samples on the lattice points "
+              "below, the array itself, filled samples on the lattice points above; exactly the lattice points inside the "
+              "requested interval) and adjust_dim_width / crop_dim_width / extend_dim_width (exactly `width` samples for every "
+              "width >= 1, placement at start / centre / end, every original sample kept whatever it holds - NaN, +-inf, the "
+              "fill value itself -, new samples filled, a regular axis continues on its lattice) hold for all inputs and any "
+              "cell type. The numeric kernels of crop_dim (slice bounds) and extend_dim (np.arange calls and their guards) are "
+              "extracted from the current source by symbolic execution and proved equal to the model for all inputs on every "
+              "run (32 ties); the rest of the model is tied by exact differential runs on dyadic axes (every width 1..2n+3, "
+              "three positions, all closedness flags, step from attribute or estimated, data with NaN / inf / fill-equal cells "
+              "over 1-3 dimensions); defaults (eps, tolerances, closedness) are re-extracted from the signatures on every run.")
 LEVEL_NOTE = ("Unmodelled: binary64 rounding of numpy arange with a fractional step and of `end + k * step` (probed on the "
-              "real code by the free-mode monitor with steps 0.01, 1/3, 0.004, 1/44100: length, data on coordinates, "
+              "real code by the free-mode monitors with steps 0.01, 1/3, 0.004, 1/44100: length, data on coordinates, "
               "coordinates within 2^-40 of the lattice); xarray sel / reindex are modelled as label slice / label lookup. "
               "Requested open ends within eps of a coordinate are excluded by hypothesis, as in the property. "
-              "Model tied to the code by generator-bounded correspondence and a table obligation for the defaults.")
-TECHNIQUE = "Lean 4 proof over model; exact differential correspondence on dyadic axes; free-mode monitor for arange rounding"
+              "Symbolic ties cover the arithmetic before the hand-over to xarray; crop_dim_width / extend_dim_width (integer "
+              "index arithmetic) and get_dim_step (numpy reductions) are tied by generator-bounded correspondence, the "
+              "defaults by a table obligation.")
+TECHNIQUE = ("Lean 4 proof over model; symbolic-trace equality obligations for the crop_dim / extend_dim kernels; exact "
+             "differential correspondence on dyadic axes; free-mode monitors for arange rounding")
 RULE = ("dyadic axes of 1-40 points x every width 1..2n+3 x three positions x step attribute present/absent; crop and "
-        "extend requests on, between and beyond coordinates with all closedness flags; decimal-step monitor; "
+        "extend requests on, between and beyond coordinates with all closedness flags; cells with NaN / +-inf / fill-equal "
+        "values over 1-d, 2-d and 3-d layouts; get_dim_step options; decimal-step monitors; "
         "non-trivial = the implementation returned an array; distinct = distinct (operation, input)")
-TRUSTED = ["xarray sel / reindex, pandas slice_indexer, numpy arange / diff / mean / isclose (modelled, validated by correspondence)"]
+TRUSTED = ["xarray sel / reindex, pandas slice_indexer, numpy arange / diff / mean / isclose (modelled, validated by correspondence)",
+           "symbolic tracer stubs of an xarray.DataArray with one range dimension (harness/props/c17.py _kernel_stubs)"]
 ASSUMPTIONS = ["binary64 arithmetic is exact on the dyadic axes used for the exact comparisons",
-               "axes strictly increasing with unique coordinates, step > 0 (the property's quantifier: regular axes)",
-               "free-mode monitor: requested ends are nominal lattice points or half-way between two; the expected "
+               "axes strictly increasing with unique coordinates, step > 0 (the property's quantifier: regular axes); the "
+               "kernel ties identify coords[0] / coords[-1] with the minimum / maximum label accordingly",
+               "free-mode monitors: requested ends are nominal lattice points or half-way between two; the expected "
                "number of samples is the nominal count"]
 NOT_COMPARED = ["error messages (only the error class)", "`start` / `stop` attributes written by extend_dim",
+                "dtype of the data (an integer array may come back as float; cell values are compared)",
                 "extension of a one-point axis that has no step attribute (the estimated step is NaN)",
                 "non-dyadic axes: only length, placement of the data, kept coordinates and lattice continuation within "
                 "tolerance are checked on the real output (the rational model cannot exhibit arange rounding)"]
 
-LAYOUTS = ["1d", "2d-first", "2d-last"]
+LAYOUTS = ["1d", "2d-first", "2d-last", "3d-mid"]
+OTHER_SHAPE = {"1d": (), "2d-first": (3,), "2d-last": (3,), "3d-mid": (2, 2)}
+SPECIAL = {"nan": math.nan, "inf": math.inf, "-inf": -math.inf}
+
+
+def _ncols(layout):
+    k = 1
+    for d in OTHER_SHAPE[layout]:
+        k *= d
+    return k
+
+
+# ------------------------------------------------------------------ cells: numbers, NaN, +-inf
+def _cell_float(c):
+    """cell of the protocol (int | rational string | "nan" | "inf" | "-inf") -> float"""
+    if isinstance(c, str):
+        return SPECIAL[c] if c in SPECIAL else float(frac(c))
+    return float(c)
+
+
+def _cell_of(x):
+    x = float(x)
+    if x != x:
+        return "nan"
+    if x in (math.inf, -math.inf):
+        return "inf" if x > 0 else "-inf"
+    return int(x) if x.is_integer() else rat(x)
+
+
+def _norm_data(data, layout):
+    """every datum as the list of its cells over the other dimensions (a scalar is the same cell everywhere)"""
+    k = _ncols(layout)
+    out = []
+    for d in data:
+        d = list(d) if isinstance(d, (list, tuple)) else [d] * k
+        if len(d) != k:
+            raise ValueError("datum does not fit the layout")
+        out.append(d)
+    return out
 
 
 # ------------------------------------------------------------------ implementations
-def _mk(coords, data, step_attr, layout="1d", int_axis=False):
+def _mk(coords, data, step_attr, layout="1d", int_axis=False, int_data=False):
     import numpy as np
     import xarray as xr
     from soundevent import arrays
     c = np.asarray(coords, dtype="int64" if int_axis else float)
     var = arrays.create_time_dim_from_array(c, step=step_attr)
-    d = np.asarray(data, dtype=float)
+    k = _ncols(layout)
+    m = np.array([[_cell_float(x) for x in row] for row in _norm_data(data, layout)], dtype=float).reshape(len(data), k)
+    if int_data:
+        m = m.astype("int64")
     if layout == "1d":
-        return xr.DataArray(d, dims=["time"], coords={"time": var})
-    other = np.array([10.0, 20.0, 30.0])
+        return xr.DataArray(m[:, 0].copy(), dims=["time"], coords={"time": var})
     if layout == "2d-first":
-        return xr.DataArray(np.repeat(d[:, None], 3, axis=1), dims=["time", "other"], coords={"time": var, "other": other})
-    return xr.DataArray(np.repeat(d[None, :], 3, axis=0), dims=["other", "time"], coords={"time": var, "other": other})
+        return xr.DataArray(m.copy(), dims=["time", "other"], coords={"time": var, "other": np.array([10.0, 20.0, 30.0])})
+    if layout == "2d-last":
+        return xr.DataArray(m.T.copy(), dims=["other", "time"], coords={"time": var, "other": np.array([10.0, 20.0, 30.0])})
+    return xr.DataArray(m.reshape(len(data), 2, 2).transpose(1, 0, 2).copy(), dims=["a", "time", "b"],
+                        coords={"time": var, "b": np.array([7.0, 9.0])})
 
 
 def _out(arr, layout="1d"):
     import numpy as np
+    if tuple(sorted(arr.dims)) != tuple(sorted({"1d": ["time"], "2d-first": ["time", "other"],
+                                                "2d-last": ["time", "other"], "3d-mid": ["a", "time", "b"]}[layout])):
+        return {"raise": "crash:dimensions-changed"}
+    for d, n in zip(("other", "a", "b"), (3, 2, 2)):
+        if d in arr.dims and arr.sizes[d] != n:
+            return {"raise": "crash:other-dimension-resized"}
     cs = [float(c) for c in np.asarray(arr.coords["time"].values)]
-    v = np.asarray(arr.transpose("time", ...).values, dtype=float)
-    if v.ndim == 2:
-        if not (v == v[:, :1]).all():
-            return {"raise": "crash:samples-torn-apart"}
-        v = v[:, 0]
-    if not all(float(x).is_integer() for x in v):
-        return {"raise": "crash:non-integer-datum"}
-    if len(cs) != len(v):
+    order = {"1d": ("time",), "2d-first": ("time", "other"), "2d-last": ("time", "other"), "3d-mid": ("time", "a", "b")}[layout]
+    k = _ncols(layout)
+    v = np.asarray(arr.transpose(*order).values, dtype=float)
+    if v.size != len(cs) * k:
         return {"raise": "crash:coords-data-length"}
-    return {"val": {"coords": [rat(c) for c in cs], "data": [int(x) for x in v]}}
+    v = v.reshape(len(cs), k)
+    data = [[_cell_of(x) for x in row] for row in v]
+    return {"val": {"coords": [rat(c) for c in cs], "data": [row[0] if k == 1 else row for row in data]}}
 
 
 def _arr_of(inp):
-    return _mk(fl(inp["coords"]), inp["data"], f(inp.get("step_attr")), inp.get("layout", "1d"), inp.get("int_axis", False))
+    return _mk(fl(inp["coords"]), inp["data"], f(inp.get("step_attr")), inp.get("layout", "1d"), inp.get("int_axis", False),
+               inp.get("int_data", False))
+
+
+def _snapshot(arr):
+    import numpy as np
+    return (np.asarray(arr.coords["time"].values).tobytes(), np.asarray(arr.values, dtype=float).tobytes(), tuple(arr.dims))
+
+
+def _observed(arr, fn, layout):
+    """call the operation; an argument that comes back changed is reported, not hidden"""
+    before = _snapshot(arr)
+    r = fn(arr)
+    if _snapshot(arr) != before:
+        return {"raise": "crash:input-array-mutated"}
+    return _out(r, layout)
 
 
 def _q(inp, key):
+    import numpy as np
     v = f(inp.get(key))
-    if v is not None and inp.get("int_axis") and v == int(v):
+    if v is None:
+        return None
+    ty = inp.get("argty")
+    if (inp.get("int_axis") or ty == "int") and v == int(v):
         return int(v)
+    if ty == "np":
+        return np.float64(v)
     return v
+
+
+def _fill_kw(inp):
+    return {} if inp.get("fill") is None else {"fill_value": _cell_float(inp["fill"])}
+
+
+def _flag_kw(inp):
+    kw = {}
+    if inp.get("eps") is not None:
+        kw["eps"] = f(inp["eps"])
+    if inp.get("lc") is not None:
+        kw["left_closed"] = inp["lc"]
+    if inp.get("rc") is not None:
+        kw["right_closed"] = inp["rc"]
+    return kw
 
 
 @guarded
 def _impl_crop(inp):
     from soundevent.arrays import operations as ops
-    kw = {}
-    if inp.get("eps") is not None:
-        kw["eps"] = f(inp["eps"])
-    r = ops.crop_dim(_arr_of(inp), "time", start=_q(inp, "start"), stop=_q(inp, "stop"),
-                     left_closed=inp["lc"], right_closed=inp["rc"], **kw)
-    return _out(r)
+    return _observed(_arr_of(inp), lambda a: ops.crop_dim(a, "time", start=_q(inp, "start"), stop=_q(inp, "stop"),
+                                                          **_flag_kw(inp)), inp.get("layout", "1d"))
 
 
 @guarded
 def _impl_extend(inp):
     from soundevent.arrays import operations as ops
-    kw = {}
-    if inp.get("eps") is not None:
-        kw["eps"] = f(inp["eps"])
-    r = ops.extend_dim(_arr_of(inp), "time", start=_q(inp, "start"), stop=_q(inp, "stop"), fill_value=inp["fill"],
-                       left_closed=inp["lc"], right_closed=inp["rc"], **kw)
-    return _out(r)
+    return _observed(_arr_of(inp), lambda a: ops.extend_dim(a, "time", start=_q(inp, "start"), stop=_q(inp, "stop"),
+                                                            **_fill_kw(inp), **_flag_kw(inp)), inp.get("layout", "1d"))
 
 
 def _call_width(arr, inp):
+    import numpy as np
     from soundevent.arrays import operations as ops
     fn = inp["fn"]
+    w = np.int64(inp["w"]) if inp.get("argty") == "np" else inp["w"]
+    pos = {} if inp.get("pos") is None else {"position": inp["pos"]}
     if fn == "adjust":
-        return ops.adjust_dim_width(arr, "time", inp["w"], fill_value=inp["fill"], position=inp["pos"])
+        return ops.adjust_dim_width(arr, "time", w, **_fill_kw(inp), **pos)
     if fn == "crop":
-        return ops.crop_dim_width(arr, "time", inp["w"], position=inp["pos"])
-    return ops.extend_dim_width(arr, "time", inp["w"], fill_value=inp["fill"], position=inp["pos"])
+        return ops.crop_dim_width(arr, "time", w, **pos)
+    return ops.extend_dim_width(arr, "time", w, **_fill_kw(inp), **pos)
 
 
 @guarded
 def _impl_width(inp):
-    return _out(_call_width(_arr_of(inp), inp))
+    return _observed(_arr_of(inp), lambda a: _call_width(a, inp), inp.get("layout", "1d"))
+
+
+@guarded
+def _impl_dim_step(inp):
+    from soundevent.arrays import dimensions as dims
+    arr = _mk(fl(inp["coords"]), [0] * len(inp["coords"]), f(inp.get("step_attr")))
+    kw = {k: f(inp[k]) for k in ("rtol", "atol") if inp.get(k) is not None}
+    kw.update({k: inp[k] for k in ("check_tolerance", "estimate_step") if inp.get(k) is not None})
+    if inp.get("via") == "estimate":
+        kw.pop("estimate_step", None)
+        r = float(dims.estimate_dim_step(arr.coords["time"].data, **kw))
+    else:
+        r = float(dims.get_dim_step(arr, "time", **kw))
+    return {"val": None if r != r else rat(r)}
+
+
+def _cmp_dim_step(inp, io, mo):
+    if is_err(io) or is_err(mo) or io.get("val") is None or mo.get("val") is None:
+        return None if io == mo else "implementation and model disagree"
+    # the mean of exact differences: one correctly rounded division
+    return None if float(frac(mo["val"])) == float(frac(io["val"])) else "step differs from the correctly rounded mean"
+
+
+@guarded
+def _impl_dim_range(inp):
+    from soundevent.arrays import dimensions as dims
+    arr = _mk(fl(inp["coords"]), [0] * len(inp["coords"]), None)
+    lo, hi = dims.get_dim_range(arr, "time")
+    return {"val": [rat(float(lo)), rat(float(hi)), rat(float(dims.get_dim_width(arr, "time")))]}
 
 
 # ---- free mode (decimal steps): the real code only, judged by the property
+def _free_data(inp):
+    return list(inp["data"]) if inp.get("data") is not None else list(range(1, inp["n"] + 1))
+
+
 def _free_axis(inp):
     import numpy as np
     a0, step, n = f(inp["a0"]), f(inp["step"]), inp["n"]
     coords = a0 + step * np.arange(n)
-    return coords, _mk(coords, list(range(1, n + 1)), step if inp["attr"] else None, inp.get("layout", "1d"))
+    return coords, _mk(coords, _free_data(inp), step if inp["attr"] else None, inp.get("layout", "1d"))
+
+
+def _free_result(o, coords):
+    if is_err(o):
+        return o
+    return {"val": {"coords": fl(o["val"]["coords"]), "data": o["val"]["data"], "orig": [float(c) for c in coords]}}
 
 
 @guarded
 def _impl_width_free(inp):
     coords, arr = _free_axis(inp)
-    r = _call_width(arr, {"fn": "adjust", "w": inp["w"], "fill": inp["fill"], "pos": inp["pos"]})
-    o = _out(r)
-    if is_err(o):
-        return o
-    return {"val": {"coords": fl(o["val"]["coords"]), "data": o["val"]["data"], "orig": [float(c) for c in coords]}}
+    o = _observed(arr, lambda a: _call_width(a, {"fn": "adjust", "w": inp["w"], "fill": inp["fill"], "pos": inp["pos"]}),
+                  inp.get("layout", "1d"))
+    return _free_result(o, coords)
 
 
 def _placement(n, w, pos):
@@ -158,27 +286,33 @@ def _lattice_ok(cs, c0, i0, step_q):
     return None
 
 
+def _same_data(observed, expected, layout):
+    return _norm_data(observed, layout) == _norm_data(expected, layout)
+
+
 def _holds_width_free(ctx, inp, out):
     if is_err(out):
         return "adjust_dim_width raised: %s" % out["raise"]
     n, w, pos, fill = inp["n"], inp["w"], inp["pos"], inp["fill"]
+    layout = inp.get("layout", "1d")
+    data = _free_data(inp)
     r = out["val"]
     cs, ds, orig = r["coords"], r["data"], r["orig"]
     if len(cs) != w:
         return f"{len(cs)} samples for width {w} (axis of {n}, position {pos})"
     off = _placement(n, w, pos)
     if w >= n:
-        exp = [fill] * off + list(range(1, n + 1)) + [fill] * (w - n - off)
+        exp = [fill] * off + data + [fill] * (w - n - off)
         if cs[off:off + n] != orig:
             return "original coordinates not kept in place"
         i0 = off
     else:
-        exp = list(range(off + 1, off + w + 1))
+        exp = data[off:off + w]
         if cs != orig[off:off + w]:
             return "cropped window is not the requested one"
         i0 = -off
-    if ds != exp:
-        return "data not on its coordinates / wrong placement"
+    if not _same_data(ds, exp, layout):
+        return "data not on its coordinates / wrong placement / new samples not filled"
     return _lattice_ok(cs, frac(inp["a0"]), i0, frac(inp["step"]))
 
 
@@ -189,12 +323,12 @@ def _impl_extend_free(inp):
     step = f(inp["step"])
     start = float(coords[0]) - inp["kl2"] / 2 * step
     stop = float(coords[-1]) + inp["kr2"] / 2 * step
-    r = ops.extend_dim(arr, "time", start=start, stop=stop, fill_value=inp["fill"],
-                       left_closed=inp["lc"], right_closed=inp["rc"])
-    o = _out(r)
-    if is_err(o):
-        return o
-    return {"val": {"coords": fl(o["val"]["coords"]), "data": o["val"]["data"], "orig": [float(c) for c in coords]}}
+    if inp.get("argty") == "np":       # the same numbers as numpy scalars
+        import numpy as np
+        start, stop = np.float64(start), np.float64(stop)
+    o = _observed(arr, lambda a: ops.extend_dim(a, "time", start=start, stop=stop, fill_value=_cell_float(inp["fill"]),
+                                                left_closed=inp["lc"], right_closed=inp["rc"]), inp.get("layout", "1d"))
+    return _free_result(o, coords)
 
 
 def _nominal(k2, closed):
@@ -218,9 +352,43 @@ def _holds_extend_free(ctx, inp, out):
                 f"{'[' if inp['lc'] else '('}start, stop{']' if inp['rc'] else ')'}")
     if cs[nl:nl + n] != orig:
         return "original coordinates not kept in place"
-    if ds != [fill] * nl + list(range(1, n + 1)) + [fill] * nr:
+    if not _same_data(ds, [fill] * nl + _free_data(inp) + [fill] * nr, inp.get("layout", "1d")):
         return "data not on its coordinates / new samples not filled"
     return _lattice_ok(cs, frac(inp["a0"]), nl, frac(inp["step"]))
+
+
+# ---- crop in free mode: decimal axes, requested ends half-way between coordinates or on them
+@guarded
+def _impl_crop_free(inp):
+    from soundevent.arrays import operations as ops
+    coords, arr = _free_axis(inp)
+    step = f(inp["step"])
+    start = float(coords[inp["i"]]) - (step / 2 if inp["half_l"] else 0.0)
+    stop = float(coords[inp["j"]]) + (step / 2 if inp["half_r"] else 0.0)
+    start, stop = max(start, float(coords[0])), min(stop, float(coords[-1]))
+    if inp.get("argty") == "np":
+        import numpy as np
+        start, stop = np.float64(start), np.float64(stop)
+    o = _observed(arr, lambda a: ops.crop_dim(a, "time", start=start, stop=stop, left_closed=inp["lc"], right_closed=inp["rc"]),
+                  inp.get("layout", "1d"))
+    if is_err(o):
+        return o
+    return {"val": {"coords": fl(o["val"]["coords"]), "data": o["val"]["data"], "orig": [float(c) for c in coords],
+                    "start": start, "stop": stop}}
+
+
+def _holds_crop_free(ctx, inp, out):
+    if is_err(out):
+        return "crop_dim raised: %s" % out["raise"]
+    r = out["val"]
+    lc, rc, s, e = inp["lc"], inp["rc"], r["start"], r["stop"]
+    keep = [k for k, c in enumerate(r["orig"]) if (s <= c if lc else s < c) and (c <= e if rc else c < e)]
+    if r["coords"] != [r["orig"][k] for k in keep]:
+        return "crop_dim did not return exactly the coordinates inside the requested interval"
+    data = _free_data(inp)
+    if not _same_data(r["data"], [data[k] for k in keep], inp.get("layout", "1d")):
+        return "data not on its coordinates"
+    return None
 
 
 _NOOP = dict(model_op="noop", to_model=lambda inp: {}, compare=lambda inp, io, mo: None, mode="tolerance")
@@ -228,16 +396,24 @@ _NOOP = dict(model_op="noop", to_model=lambda inp: {}, compare=lambda inp, io, m
 
 def _strip(keys):
     def to_model(inp):
-        return {k: v for k, v in inp.items() if k not in keys}
+        out = {k: v for k, v in inp.items() if k not in keys}
+        if "data" in out:     # the model sees every datum as the list of its cells over the other dimensions
+            out["data"] = _norm_data(out["data"], inp.get("layout", "1d"))
+        return out
     return to_model
 
 
+_HARNESS_KEYS = {"layout", "int_axis", "int_data", "argty"}
+
 OPS = {
-    "crop_dim": Op("crop_dim", _impl_crop, to_model=_strip({"layout", "int_axis", "step_attr"})),
-    "extend_dim": Op("extend_dim", _impl_extend, to_model=_strip({"layout", "int_axis"})),
-    "width": Op("width", _impl_width, to_model=_strip({"layout", "int_axis"})),
+    "crop_dim": Op("crop_dim", _impl_crop, to_model=_strip(_HARNESS_KEYS | {"step_attr"})),
+    "extend_dim": Op("extend_dim", _impl_extend, to_model=_strip(_HARNESS_KEYS)),
+    "width": Op("width", _impl_width, to_model=_strip(_HARNESS_KEYS)),
+    "dim_step": Op("dim_step", _impl_dim_step, to_model=_strip({"via"}), compare=_cmp_dim_step, mode="round-once"),
+    "dim_range": Op("dim_range", _impl_dim_range),
     "width_free": Op("width_free", _impl_width_free, holds=_holds_width_free, **_NOOP),
     "extend_free": Op("extend_free", _impl_extend_free, holds=_holds_extend_free, **_NOOP),
+    "crop_free": Op("crop_free", _impl_crop_free, holds=_holds_crop_free, **_NOOP),
 }
 
 
@@ -273,6 +449,270 @@ def _defaults(ctx):
     ctx.obligation("signature-defaults", src, {"op": "crop_dim"})
 
 
+# ------------------------------------------------------------------ tie 1b: the numeric kernels of crop_dim / extend_dim
+_DIM = "time"
+_FLAGS = [(True, False), (False, True), (True, True), (False, False)]
+
+
+def _kernel_stubs():
+    """Stand-ins for an array with one range dimension.  They answer what crop_dim / extend_dim ask of
+    an array (range, step attribute, coordinate values, label slice, reindex) with symbolic numbers and
+    record the calls that hand over to xarray.  Behaviour is observed, not names: locals, helper
+    functions, the order of independent statements may change freely."""
+    import numpy
+    from ..symtrace import Sym, Untraceable
+
+    sy = {n: Sym.var(n) for n in ("cs", "ce", "step", "s", "e", "eps")}
+
+    class SArr:
+        """coordinate values: the original ones and / or generated pieces, in order"""
+        dtype = numpy.dtype("float64")
+        ndim = 1
+
+        def __init__(self, pieces):
+            self.pieces = list(pieces)
+
+        def __getitem__(self, k):
+            if isinstance(k, int) and not isinstance(k, bool):
+                if k == -1 and self.pieces and self.pieces[-1] == ("orig",):
+                    return sy["ce"]      # increasing axis: the last coordinate is the maximum
+                if k == 0 and self.pieces and self.pieces[0] == ("orig",):
+                    return sy["cs"]
+                raise Untraceable("element of a generated coordinate array")
+            if isinstance(k, slice) and len(self.pieces) == 1 and self.pieces[0][0] == "arange":
+                _, a, b, c, rev, drop = self.pieces[0]
+                if (k.start, k.stop, k.step) == (None, None, -1):
+                    return SArr([("arange", a, b, c, not rev, drop)])
+                if (k.start, k.stop, k.step) in ((1, None, None), (1, None, 1)) and not rev:
+                    return SArr([("arange", a, b, c, rev, drop + 1)])
+            raise Untraceable(f"unsupported indexing {k!r} of the coordinate array")
+
+        def min(self, *a, **k):
+            if self.pieces == [("orig",)]:
+                return sy["cs"]
+            raise Untraceable("min of generated coordinates")
+
+        def max(self, *a, **k):
+            if self.pieces == [("orig",)]:
+                return sy["ce"]
+            raise Untraceable("max of generated coordinates")
+
+        def astype(self, *a, **k):
+            return self
+
+        def copy(self, *a, **k):
+            return SArr(self.pieces)
+
+        def __len__(self):
+            raise Untraceable("length of the coordinate array")
+
+    class SMask:
+        """a boolean mask over the labels, given by inclusive bounds: `(labels >= lo) & (labels <= hi)`"""
+        def __init__(self, lo=None, hi=None):
+            self.lo, self.hi = lo, hi
+
+        def __and__(self, o):
+            if not isinstance(o, SMask) or (self.lo is not None and o.lo is not None) or (self.hi is not None and o.hi is not None):
+                raise Untraceable("unsupported combination of label masks")
+            return SMask(self.lo if self.lo is not None else o.lo, self.hi if self.hi is not None else o.hi)
+
+        __rand__ = __and__
+
+    class SCoord:
+        """`arr.coords[dim]` / `arr.indexes[dim]` / `arr[dim]`"""
+        dtype = numpy.dtype("float64")
+        dims = (_DIM,)
+        __hash__ = None
+
+        def __init__(self):
+            self.attrs = {"step": sy["step"], "units": "s"}
+
+        def __ge__(self, v):
+            return SMask(lo=v)
+
+        def __le__(self, v):
+            return SMask(hi=v)
+
+        data = property(lambda self: SArr([("orig",)]))
+        values = property(lambda self: SArr([("orig",)]))
+
+        def to_numpy(self):
+            return SArr([("orig",)])
+
+        def min(self, *a, **k):
+            return sy["cs"]
+
+        def max(self, *a, **k):
+            return sy["ce"]
+
+        def __getitem__(self, k):
+            return SArr([("orig",)])[k]
+
+    class SMap:
+        def __init__(self):
+            self.c = SCoord()
+
+        def __getitem__(self, key):
+            if key != _DIM:
+                raise KeyError(key)
+            return self.c
+
+        def __contains__(self, key):
+            return key == _DIM
+
+        def get(self, key, default=None):
+            return self.c if key == _DIM else default
+
+    class SResult:
+        """what the label slice / the reindexing returned"""
+        def __init__(self, kind, payload):
+            self.kind, self.payload = kind, payload
+            self.coords = SMap()
+            self.attrs = {}
+
+        def __getitem__(self, key):
+            return self.coords[key]
+
+    class SDataArray:
+        dims = (_DIM,)
+        ndim = 1
+
+        def __init__(self):
+            self.coords = SMap()
+            self.indexes = SMap()
+            self.attrs = {}
+
+        def __getitem__(self, key):
+            return self.coords[key]
+
+        def _one(self, indexers, kw):
+            d = dict(indexers or {})
+            d.update(kw)
+            if list(d) != [_DIM]:
+                raise Untraceable("indexers of another dimension")
+            return d[_DIM]
+
+        def sel(self, indexers=None, method=None, tolerance=None, drop=False, **kw):
+            sl = self._one(indexers, kw)
+            if not isinstance(sl, slice) or sl.step is not None or method is not None:
+                raise Untraceable("crop_dim no longer takes a plain label slice")
+            return SResult("sel", (sl.start, sl.stop))
+
+        def where(self, cond, other=None, drop=False):
+            if not isinstance(cond, SMask) or cond.lo is None or cond.hi is None or not drop:
+                raise Untraceable("crop_dim no longer selects an inclusive label range")
+            return SResult("sel", (cond.lo, cond.hi))
+
+        @property
+        def loc(self):
+            outer = self
+
+            class Loc:
+                def __getitem__(self, key):
+                    return outer.sel(key if isinstance(key, dict) else {_DIM: key})
+            return Loc()
+
+        def reindex(self, indexers=None, method=None, tolerance=None, copy=True, fill_value=None, **kw):
+            cs = self._one(indexers, kw)
+            if not isinstance(cs, SArr) or method is not None:
+                raise Untraceable("extend_dim no longer reindexes onto the generated coordinates")
+            return SResult("reindex", cs.pieces)
+
+    real_arange, real_concat = numpy.arange, numpy.concatenate
+
+    def arange(*a, **kw):
+        kw = dict(kw)
+        kw.pop("dtype", None)
+        kw.pop("like", None)
+        vals = list(a) + list(kw.values())
+        if not any(isinstance(x, Sym) for x in vals):
+            return real_arange(*a, **kw)
+        names = ["start", "stop", "step"]
+        if len(a) == 1 and "stop" not in kw:
+            args = {"start": 0, "stop": a[0]}
+        else:
+            args = dict(zip(names, a))
+        args.update(kw)
+        return SArr([("arange", args.get("start", 0), args["stop"], args.get("step", 1), False, 0)])
+
+    def concatenate(seq, *a, **kw):
+        seq = list(seq)
+        if not any(isinstance(x, SArr) for x in seq):
+            return real_concat(seq, *a, **kw)
+        if not all(isinstance(x, SArr) for x in seq):
+            raise Untraceable("concatenation of symbolic and concrete coordinates")
+        return SArr([p for x in seq for p in x.pieces])
+
+    class patched:
+        def __enter__(self):
+            numpy.arange, numpy.concatenate = arange, concatenate
+
+        def __exit__(self, *exc):
+            numpy.arange, numpy.concatenate = real_arange, real_concat
+
+    return sy, SDataArray, patched, Untraceable
+
+
+def _symbolic_ties(ctx):
+    from soundevent.arrays import operations as ops
+    from .. import symx
+    sy, SDataArray, patched, Untraceable = _kernel_stubs()
+    V = ["cs", "ce", "step", "s", "e", "eps"]
+    bl = {True: "true", False: "false"}
+
+    def crop_thunk(kw):
+        def run():
+            with patched():
+                r = ops.crop_dim(SDataArray(), _DIM, eps=sy["eps"], **kw)
+            if getattr(r, "kind", None) != "sel":
+                raise Untraceable("crop_dim did not return the label slice of the array")
+            return r.payload
+        return run
+
+    def plan_leaf(r):
+        if getattr(r, "kind", None) != "reindex":
+            raise Untraceable("extend_dim did not return the reindexed array")
+        pieces = list(r.payload)
+        if pieces.count(("orig",)) != 1:
+            raise Untraceable("the original coordinates are not kept as one block")
+        i = pieces.index(("orig",))
+        left, right = pieces[:i], pieces[i + 1:]
+
+        def side(ps, rev, drop):
+            if not ps:
+                return "none"
+            if len(ps) != 1 or ps[0][4] != rev or ps[0][5] != drop:
+                raise Untraceable("new coordinates are no longer generated outward from the axis ends by arange")
+            return "some (%s, %s, %s)" % tuple(symx.num(x) for x in ps[0][1:4])
+        return f"some ({side(left, True, 0)}, {side(right, False, 1)})"
+
+    def extend_thunk(kw):
+        def run():
+            with patched():
+                return ops.extend_dim(SDataArray(), _DIM, eps=sy["eps"], fill_value=0, **kw)
+        return run
+
+    for has_s in (True, False):
+        for has_e in (True, False):
+            for lc, rc in _FLAGS:
+                kw = {"left_closed": lc, "right_closed": rc}
+                if has_s:
+                    kw["start"] = sy["s"]
+                if has_e:
+                    kw["stop"] = sy["e"]
+                tag = f"{'s' if has_s else 'n'}{'e' if has_e else 'n'}_{'c' if lc else 'o'}{'c' if rc else 'o'}"
+                margs = f"{'(some s)' if has_s else 'none'} {'(some e)' if has_e else 'none'}"
+                name = f"ext_crop_bounds_{tag}"
+                ctx.sym_tie(name, crop_thunk(kw), V, "Rat × Rat",
+                            f"SE.Axis.cropBounds cs ce {margs} {bl[lc]} {bl[rc]} eps",
+                            tactic=f"unfold {name} SE.Axis.cropBounds\n  se_c17", meta={"op": "crop_dim"})
+                name = f"ext_extend_plan_{tag}"
+                symx.sym_tie(ctx, name, extend_thunk(kw), V,
+                             "Option (Option SE.Axis.ArangeArgs × Option SE.Axis.ArangeArgs)",
+                             f"SE.Axis.extendPlan cs ce ce step {margs} eps {bl[lc]} {bl[rc]}", plan_leaf,
+                             tactic=f"unfold {name} SE.Axis.extendPlan\n  se_c17", meta={"op": "extend_dim"})
+
+
 # ------------------------------------------------------------------ generators
 def _axis(rng, n, k=None):
     k = k if k is not None else rng.choice([0, 1, 2, 3, 6])
@@ -281,11 +721,44 @@ def _axis(rng, n, k=None):
     return a0, step, [a0 + i * step for i in range(n)]
 
 
-def _base(rng, coords, step, attr=None, layout=None):
+FILLS = [0, 0, -9, 77, "nan", "inf", "-inf"]
+
+
+def _cells(rng, n, k, fill):
+    """data of n samples over k other positions: mostly distinct numbers, with NaN, +-inf and cells equal to
+    the fill value mixed in (the operations must move cells, never reinterpret them)"""
+    kind = rng.choice(["ramp", "ramp", "mixed", "mixed", "nan-heavy", "fill-equal"])
+    rows = []
+    for i in range(n):
+        row = []
+        for j in range(k):
+            base = (i + 1) + 100 * j
+            r = rng.random()
+            if kind == "ramp":
+                c = base
+            elif kind == "mixed":
+                c = "nan" if r < 0.15 else "inf" if r < 0.22 else "-inf" if r < 0.29 else fill if r < 0.4 else base
+            elif kind == "nan-heavy":
+                c = "nan" if r < 0.6 else base
+            else:
+                c = fill if r < 0.5 else base
+            row.append(c)
+        rows.append(row[0] if k == 1 else row)
+    return rows
+
+
+def _base(rng, coords, step, attr=None, layout=None, fill=0):
     n = len(coords)
     attr = (rng.random() < 0.5 or n < 2) if attr is None else attr
-    return {"coords": rats(coords), "data": list(range(1, n + 1)), "step_attr": rat(step) if attr else None,
-            "layout": layout or rng.choice(LAYOUTS)}
+    layout = layout or rng.choice(LAYOUTS)
+    b = {"coords": rats(coords), "data": _cells(rng, n, _ncols(layout), fill), "step_attr": rat(step) if attr else None,
+         "layout": layout}
+    if rng.random() < 0.15:
+        b["argty"] = rng.choice(["np", "int"])
+    if rng.random() < 0.1 and all(isinstance(c, int) for row in _norm_data(b["data"], layout) for c in row) \
+            and (fill is None or isinstance(fill, int)):
+        b["int_data"] = True
+    return b
 
 
 def _width_cases(ctx, lengths):
@@ -295,16 +768,23 @@ def _width_cases(ctx, lengths):
         for attr in ([True, False] if n >= 2 else [True]):
             for w in range(1, 2 * n + 4):
                 for pos in ("start", "center", "end"):
-                    b = _base(rng, coords, step, attr)
-                    b.update({"fn": "adjust", "w": w, "fill": rng.choice([0, 0, -9, 77]), "pos": pos})
+                    fill = rng.choice(FILLS)
+                    b = _base(rng, coords, step, attr, fill=fill)
+                    b.update({"fn": "adjust", "w": w, "fill": fill, "pos": pos})
                     yield b
+        # defaults: no fill value (0), no position ("start")
+        for w in (max(n - 1, 1), n + 2):
+            for drop in ("fill", "pos", "both"):
+                b = _base(rng, coords, step, True, fill=0)
+                b.update({"fn": "adjust", "w": w, "fill": None if drop != "pos" else 5, "pos": None if drop != "fill" else "end"})
+                yield b
         # rejected requests and the two halves called directly
         b = _base(rng, coords, step, True)
         for w, fn, pos in [(0, "adjust", "start"), (-1, "adjust", "end"), (n + 2, "adjust", "middle"),
                            (max(n - 1, 1), "adjust", "middle"), (n, "crop", "start"), (n + 1, "crop", "end"),
                            (n, "extend", "start"), (max(n - 1, 0), "extend", "center"), (n + 3, "extend", "center"),
                            (max(n - 1, 0), "crop", "center"), (n + 2, "extend", "bogus"), (0, "crop", "start"),
-                           (0, "crop", "end")]:
+                           (0, "crop", "end"), (max(n - 1, 0), "crop", None), (n + 2, "extend", None)]:
             c = dict(b)
             c.update({"fn": fn, "w": w, "fill": 0, "pos": pos})
             yield c
@@ -313,12 +793,21 @@ def _width_cases(ctx, lengths):
         for w in range(1, 2 * n + 4):
             for pos in ("start", "center", "end"):
                 yield {"coords": rats(range(n)), "data": list(range(1, n + 1)), "step_attr": None, "layout": "1d",
-                       "int_axis": True, "fn": "adjust", "w": w, "fill": 0, "pos": pos}
+                       "int_axis": True, "int_data": w % 2 == 0, "fn": "adjust", "w": w, "fill": 0, "pos": pos}
     # irregular axis without the attribute: the step estimate is rejected
     yield {"coords": rats([0, 1, 3]), "data": [1, 2, 3], "step_attr": None, "layout": "1d",
            "fn": "adjust", "w": 5, "fill": 0, "pos": "start"}
-    yield {"coords": rats([0, 1, 3]), "data": [1, 2, 3], "step_attr": "1", "layout": "1d",
+    yield {"coords": rats([0, 1, 3]), "data": [1, "nan", 3], "step_attr": "1", "layout": "1d",
            "fn": "adjust", "w": 5, "fill": 0, "pos": "end"}
+    # the smallest arrays that hold a NaN / an infinity / the fill value itself
+    for data, fill in [([1, "nan", 3], 0), (["nan"], 0), (["inf", "-inf"], 0), ([0, 5, 0], 0), ([7, 7], 7),
+                       (["nan", "nan"], "nan"), ([1, 2], "inf"), ([[1, "nan", 3], ["nan", 5, 6]], -9)]:
+        n = len(data)
+        layout = "2d-last" if isinstance(data[0], list) else "1d"
+        for w in range(1, n + 4):
+            for pos in ("start", "center", "end"):
+                yield {"coords": rats(range(n)), "data": data, "step_attr": "1", "layout": layout,
+                       "fn": "adjust", "w": w, "fill": fill, "pos": pos}
 
 
 def _probe_points(rng, coords, step):
@@ -345,6 +834,8 @@ def _crop_cases(ctx, n_axes):
             b.update({"start": rat(s) if rng.random() < 0.85 else None, "stop": rat(e) if rng.random() < 0.85 else None,
                       "lc": rng.random() < 0.5, "rc": rng.random() < 0.5,
                       "eps": rng.choice([None, None, rat(Fraction(1, 1 << 20)), rat(step / 8)])})
+            if rng.random() < 0.1:      # the closedness defaults [start, stop)
+                b["lc"] = b["rc"] = None
             yield b
         # outside the axis, reversed
         b = _base(rng, coords, step)
@@ -352,6 +843,17 @@ def _crop_cases(ctx, n_axes):
             c = dict(b)
             c.update({"start": rat(s), "stop": rat(e), "lc": True, "rc": False, "eps": None})
             yield c
+    # every pair of ends on a small axis around zero (coordinates of both signs and zero itself)
+    for coords in ([Fraction(i) for i in range(-3, 4)], [Fraction(i, 2) for i in range(-2, 2)], [Fraction(0)],
+                   [Fraction(-5, 4), Fraction(-1, 4)]):
+        for s in coords:
+            for e in coords:
+                if s <= e:
+                    for lc, rc in _FLAGS:
+                        for argty in (None, "int", "np"):      # ends as float, as Python int where whole, as numpy scalar
+                            yield {"coords": rats(coords), "data": [("nan" if i % 3 == 1 else i) for i in range(len(coords))],
+                                   "step_attr": None, "layout": "1d", "start": rat(s), "stop": rat(e), "lc": lc, "rc": rc,
+                                   "eps": None, "argty": argty}
     # decimal axes: crop only compares (stop - eps is the one rounded operation, far from every coordinate)
     import numpy as np
     for step in (0.01, 0.1, 1 / 3, 0.004):
@@ -359,7 +861,7 @@ def _crop_cases(ctx, n_axes):
             coords = [float(c) for c in (0.3 + step * np.arange(n))]
             for i in range(n):
                 for j in range(i, n):
-                    for lc, rc in ((True, False), (False, True), (True, True), (False, False)):
+                    for lc, rc in _FLAGS:
                         yield {"coords": rats(coords), "data": list(range(1, n + 1)), "step_attr": rat(step),
                                "layout": "1d", "start": rat(coords[i]), "stop": rat(coords[j]), "lc": lc, "rc": rc,
                                "eps": None}
@@ -376,14 +878,20 @@ def _extend_cases(ctx, n_axes):
                 for lc in (True, False):
                     for rc in (True, False):
                         fo, go = rng.choice(offs), rng.choice(offs)
-                        b = _base(rng, coords, step)
+                        fill = rng.choice(FILLS)
+                        b = _base(rng, coords, step, fill=fill)
                         b.update({"start": rat(coords[0] - (kl + fo) * step), "stop": rat(coords[-1] + (kr + go) * step),
-                                  "fill": rng.choice([0, -9, 77]), "lc": lc, "rc": rc,
+                                  "fill": fill, "lc": lc, "rc": rc,
                                   "eps": rng.choice([None, None, rat(Fraction(1, 1 << 20)), rat(step / 8)])})
                         if rng.random() < 0.1:
                             b["start"] = None
                         if rng.random() < 0.1:
                             b["stop"] = None
+                        if rng.random() < 0.08 and isinstance(fill, int):      # defaults: fill 0, [start, stop)
+                            b["fill"] = None
+                            b["lc"] = b["rc"] = None
+                            b["data"] = _cells(rng, n, _ncols(b["layout"]), 0)
+                            b.pop("int_data", None)
                         yield b
         # not containing the axis, reversed: extend_dim does not crop
         b = _base(rng, coords, step)
@@ -392,10 +900,75 @@ def _extend_cases(ctx, n_axes):
             c = dict(b)
             c.update({"start": rat(s), "stop": rat(e), "fill": 0, "lc": True, "rc": False, "eps": None})
             yield c
+    # half-step axis, every combination of whole / half ends, given as float, Python int or numpy scalar
+    half = [Fraction(0), Fraction(1, 2), Fraction(1)]
+    for s in (Fraction(-1), Fraction(-1, 2), Fraction(0), None):
+        for e in (Fraction(1), Fraction(3, 2), Fraction(2), None):
+            for lc, rc in _FLAGS:
+                for argty in (None, "int", "np"):
+                    yield {"coords": rats(half), "data": [1, "nan", 3], "step_attr": "1/2" if lc else None, "layout": "1d",
+                           "start": None if s is None else rat(s), "stop": None if e is None else rat(e), "fill": -9,
+                           "lc": lc, "rc": rc, "eps": None, "argty": argty}
+    # the smallest arrays that hold a NaN / an infinity / the fill value itself
+    for data, fill in [([1, "nan", 3], 0), (["nan"], 0), (["inf", "-inf"], 0), ([0, 5, 0], 0), ([7, 7], 7),
+                       (["nan", "nan"], "nan"), ([1, 2], "-inf")]:
+        n = len(data)
+        for kl in (0, 2):
+            for kr in (0, 1):
+                yield {"coords": rats(range(n)), "data": data, "step_attr": "1", "layout": "1d", "start": rat(-kl),
+                       "stop": rat(n - 1 + kr), "fill": fill, "lc": True, "rc": True, "eps": None}
+
+
+def _step_cases(ctx):
+    """get_dim_step / estimate_dim_step with every option: attribute, estimate, tolerances, switches"""
+    rng = ctx.rng
+    tols = [None, "0", rat(Fraction(1, 4)), rat(Fraction(1, 64)), rat(Fraction(1, 1 << 20))]
+    for _ in range(ctx.budget(300, 3000)):
+        n = rng.choice([1, 2, 3, 3, 5, 9, 17])
+        a0, step, coords = _axis(rng, n, rng.choice([0, 1, 3]))
+        if rng.random() < 0.6 and n >= 3:     # make it irregular by a dyadic amount
+            i = rng.randrange(1, n)
+            d = step * rng.choice([Fraction(1, 2), Fraction(1, 8), Fraction(1, 1 << 12), Fraction(1, 1 << 24)])
+            coords = coords[:i] + [c + d for c in coords[i:]]
+        inp = {"coords": rats(coords), "step_attr": rat(step * 3) if rng.random() < 0.2 else None,
+               "rtol": rng.choice(tols), "atol": rng.choice(tols),
+               "check_tolerance": rng.choice([None, True, False]), "estimate_step": rng.choice([None, None, True, False]),
+               "via": "estimate" if rng.random() < 0.25 else None}
+        if inp["via"] == "estimate":
+            inp["step_attr"] = None
+            inp["estimate_step"] = None
+        # stay away from the tolerance boundary unless everything is exact
+        ds = [b - a for a, b in zip(coords, coords[1:])]
+        if ds:
+            mean = sum(ds) / len(ds)
+            rt = frac(inp["rtol"]) if inp["rtol"] is not None else Fraction(1e-5)
+            at = frac(inp["atol"]) if inp["atol"] is not None else Fraction(1e-8)
+            tol = at + rt * abs(mean)
+            exact = float(mean) == mean and inp["rtol"] is not None and inp["atol"] is not None
+            if not exact and any(abs(abs(d - mean) - tol) <= Fraction(1, 1 << 30) * max(1, tol) for d in ds):
+                continue
+        yield inp
+
+
+def _range_cases(ctx):
+    rng = ctx.rng
+    for _ in range(ctx.budget(60, 400)):
+        n = rng.choice([1, 2, 5, 9])
+        _a0, _step, coords = _axis(rng, n)
+        yield {"coords": rats(coords)}
 
 
 FREE_STEPS = [0.01, 1 / 3, 0.004, 1 / 44100, 0.1, 1e-3, 0.25, 1 / 22050, 0.3, 2.5]
 FREE_STARTS = [0.0, 0.3, 12.7, 2.0, 100.03]
+FREE_FILLS = [0, -9, "nan", "inf"]
+
+
+def _free_cells(rng, n, fill):
+    """None = the ramp 1..n; otherwise cells with NaN / inf / the fill value among them"""
+    if rng.random() < 0.5:
+        return None
+    return [("nan" if r < 0.25 else "inf" if r < 0.35 else fill if r < 0.5 else i + 1)
+            for i, r in ((i, rng.random()) for i in range(n))]
 
 
 def _width_free_cases(ctx):
@@ -405,14 +978,16 @@ def _width_free_cases(ctx):
             for a0 in FREE_STARTS[:3]:
                 for w in sorted({max(1, n - 3), n, n + 1, n + 2, n + 7, 2 * n + 1, 2 * n + 3}):
                     for pos in ("start", "end", "center"):
+                        fill = rng.choice(FREE_FILLS)
                         yield {"a0": rat(a0), "step": rat(step), "n": n, "attr": n < 2 or rng.random() < 0.5,
-                               "w": w, "pos": pos, "fill": rng.choice([0, -9]), "layout": "1d"}
+                               "w": w, "pos": pos, "fill": fill, "layout": "1d", "data": _free_cells(rng, n, fill)}
     for _ in range(ctx.budget(400, 8000)):
         n = rng.randint(1, 60)
+        fill = rng.choice(FREE_FILLS)
         yield {"a0": rat(rng.choice(FREE_STARTS + [rng.uniform(-3, 30)])),
                "step": rat(rng.choice(FREE_STEPS + [rng.uniform(1e-4, 2)])), "n": n, "attr": n < 2 or rng.random() < 0.5,
-               "w": rng.randint(1, 2 * n + 3), "pos": rng.choice(["start", "end", "center"]), "fill": rng.choice([0, -9]),
-               "layout": rng.choice(LAYOUTS)}
+               "w": rng.randint(1, 2 * n + 3), "pos": rng.choice(["start", "end", "center"]), "fill": fill,
+               "layout": rng.choice(LAYOUTS), "data": _free_cells(rng, n, fill)}
 
 
 def _inside_quantifier(c):
@@ -436,23 +1011,40 @@ def _extend_free_raw(ctx):
             for a0 in FREE_STARTS[:4]:
                 for kl2 in (0, 2, 3, 6):
                     for kr2 in (0, 2, 5, 8):
-                        lc, rc = rng.choice([(True, False), (True, True), (False, False), (False, True)])
+                        lc, rc = rng.choice(_FLAGS)
+                        fill = rng.choice(FREE_FILLS)
                         yield {"a0": rat(a0), "step": rat(step), "n": n, "attr": True, "kl2": kl2, "kr2": kr2,
-                               "lc": lc, "rc": rc, "fill": rng.choice([0, -9]), "layout": "1d"}
+                               "lc": lc, "rc": rc, "fill": fill, "layout": "1d", "data": _free_cells(rng, n, fill)}
     for _ in range(ctx.budget(600, 10000)):
         n = rng.randint(1, 40)
+        fill = rng.choice(FREE_FILLS)
         yield {"a0": rat(rng.choice(FREE_STARTS + [rng.uniform(-3, 30)])),
                "step": rat(rng.choice(FREE_STEPS + [rng.uniform(1e-3, 2)])), "n": n, "attr": n < 2 or rng.random() < 0.6,
                "kl2": rng.randint(0, 12), "kr2": rng.randint(0, 12), "lc": rng.random() < 0.5, "rc": rng.random() < 0.5,
-               "fill": rng.choice([0, -9]), "layout": rng.choice(LAYOUTS)}
+               "fill": fill, "layout": rng.choice(LAYOUTS), "data": _free_cells(rng, n, fill),
+               "argty": "np" if rng.random() < 0.3 else None}
+
+
+def _crop_free_cases(ctx):
+    rng = ctx.rng
+    steps = [s for s in FREE_STEPS if s >= 1e-3]
+    for _ in range(ctx.budget(500, 6000)):
+        n = rng.randint(1, 30)
+        i = rng.randrange(n)
+        j = rng.randrange(i, n)
+        yield {"a0": rat(rng.choice(FREE_STARTS + [-1.7, rng.uniform(-3, 30)])), "step": rat(rng.choice(steps + [rng.uniform(1e-3, 2)])),
+               "n": n, "attr": rng.random() < 0.5, "i": i, "j": j, "half_l": rng.random() < 0.5, "half_r": rng.random() < 0.5,
+               "lc": rng.random() < 0.5, "rc": rng.random() < 0.5, "layout": rng.choice(LAYOUTS),
+               "data": _free_cells(rng, n, 0), "argty": "np" if rng.random() < 0.3 else None}
 
 
 QUICK_LENGTHS = [1, 2, 3, 4, 5, 7, 8, 12, 16, 25, 40]
 
 
-def _stage_defaults(ctx):
-    _defaults(ctx)
-    ctx.discharge(["SoundeventModel.Axis", "SoundeventModel.Tactics"])
+def _stage_obligations(ctx):
+    ctx.stage("signature-defaults", _defaults, ctx)
+    ctx.stage("symbolic-ties", _symbolic_ties, ctx)
+    ctx.discharge(["SoundeventModel.Axis", "SoundeventModel.AxisOps", "SoundeventModel.Tactics"])
 
 
 def _stage_width(ctx):
@@ -460,21 +1052,27 @@ def _stage_width(ctx):
     ctx.run_cases(OPS["width"], _width_cases(ctx, lengths))
     ctx.exhaustive["width"] = (f"dyadic axes of lengths {lengths[0]}..{lengths[-1]} ({len(lengths)} lengths): every width "
                                "1..2n+3 x start/center/end x step attribute present/absent")
+    ctx.exhaustive["crop_dim"] = "axes -3..3, -1..1/2 (step 1/2), [0], [-5/4, -1/4]: every pair of ends on coordinates x 4 closedness flags"
 
 
 def run(ctx):
     ctx.stage("corpus", ctx.run_corpus, OPS)
-    ctx.stage("signature-defaults", _stage_defaults, ctx)
+    ctx.stage("obligations", _stage_obligations, ctx)
     ctx.stage("width-exact", _stage_width, ctx)
     ctx.stage("crop-exact", lambda: ctx.run_cases(OPS["crop_dim"], _crop_cases(ctx, ctx.budget(25, 200))))
     ctx.stage("extend-exact", lambda: ctx.run_cases(OPS["extend_dim"], _extend_cases(ctx, ctx.budget(25, 200))))
+    ctx.stage("step-exact", lambda: ctx.run_cases(OPS["dim_step"], _step_cases(ctx)))
+    ctx.stage("range-exact", lambda: ctx.run_cases(OPS["dim_range"], _range_cases(ctx)))
     ctx.stage("width-free-monitor", lambda: ctx.run_cases(OPS["width_free"], _width_free_cases(ctx)))
     ctx.stage("extend-free-monitor", lambda: ctx.run_cases(OPS["extend_free"], _extend_free_cases(ctx)))
+    ctx.stage("crop-free-monitor", lambda: ctx.run_cases(OPS["crop_free"], _crop_free_cases(ctx)))
 
 
 def search(ctx, failures):
     ctx.run_cases(OPS["width"], _width_cases(ctx, QUICK_LENGTHS))
     ctx.run_cases(OPS["crop_dim"], _crop_cases(ctx, 40))
     ctx.run_cases(OPS["extend_dim"], _extend_cases(ctx, 40))
+    ctx.run_cases(OPS["dim_step"], _step_cases(ctx))
     ctx.run_cases(OPS["width_free"], _width_free_cases(ctx))
     ctx.run_cases(OPS["extend_free"], _extend_free_cases(ctx))
+    ctx.run_cases(OPS["crop_free"], _crop_free_cases(ctx))
